@@ -76,11 +76,12 @@ class SuperProxy:
 class Coro:
     """un-awaited call of an async function (lazy)"""
 
-    __slots__ = ("thunk", "label")
+    __slots__ = ("thunk", "label", "args")
 
-    def __init__(self, thunk, label=""):
+    def __init__(self, thunk, label="", args=()):
         self.thunk = thunk
         self.label = label
+        self.args = tuple(args)
 
 
 class CallsMixin:
@@ -253,13 +254,13 @@ class CallsMixin:
         if fc is not None and not self.is_inlining(qn):
             is_async = inspect.iscoroutinefunction(f)
             if is_async and not awaited:
-                return Coro(lambda: self.apply_contract(fc, args, kwargs, fr), qn)
+                return Coro(lambda: self.apply_contract(fc, args, kwargs, fr), qn, args)
             return self.apply_contract(fc, args, kwargs, fr)
         mi, node = find_def(qn) if ".setter" not in qn else (None, None)
         if node is None:
             raise Unsupported(f"no source for {qn}")
         if isinstance(node, ast.AsyncFunctionDef) and not awaited:
-            return Coro(lambda: self.run_function(node, mi, qn, args, kwargs), qn)
+            return Coro(lambda: self.run_function(node, mi, qn, args, kwargs), qn, args)
         return self.run_function(node, mi, qn, args, kwargs)
 
     def is_inlining(self, qn) -> bool:
